@@ -95,6 +95,11 @@ pub struct ThreadPlan {
     /// library's own thread-locals have been destroyed) instead of after its last one
     #[serde(default)]
     pub exit_guard_early: bool,
+    /// nonzero: the thread restricts itself to this many CPUs before its first library call
+    /// (`available_parallelism` is part of the environment a result must not depend on; threads
+    /// the library starts inherit the restriction)
+    #[serde(default)]
+    pub cpus: u8,
 }
 
 #[derive(Clone, Debug, Serialize, Deserialize)]
@@ -483,7 +488,7 @@ pub fn generate(g: &GenCtx, seed: u64) -> Scenario {
             }
         }
         let exit_guard_early = rng.pct(60);
-        sc.threads.push(ThreadPlan { start, hash_key: rng.next_u64(), steps, stack_kb, exit_ops, exit_guard_early });
+        sc.threads.push(ThreadPlan { start, hash_key: rng.next_u64(), steps, stack_kb, exit_ops, exit_guard_early, cpus: 0 });
     }
     // contention: several threads hammer the same few near-identical calls (one family), with
     // every yield site active and a high preemption rate - process-wide keyed state (hand-off
@@ -504,7 +509,7 @@ pub fn generate(g: &GenCtx, seed: u64) -> Scenario {
                 let op = intern(&mut sc, *rng.pick(&members));
                 steps.push(Step { op, repeat: 1, rekey: None, clock_jump_ms: 0, disk_fault: 0 });
             }
-            sc.threads.push(ThreadPlan { start: Start::AtBegin, hash_key: rng.next_u64(), steps, stack_kb: 0, exit_ops: Vec::new(), exit_guard_early: false });
+            sc.threads.push(ThreadPlan { start: Start::AtBegin, hash_key: rng.next_u64(), steps, stack_kb: 0, exit_ops: Vec::new(), exit_guard_early: false, cpus: 0 });
         }
         let all_sites = if a5::verif::site::COUNT >= 32 { u32::MAX } else { (1u32 << a5::verif::site::COUNT) - 1 };
         sc.yield_mask = match rng.below(10) {
@@ -572,6 +577,13 @@ pub fn generate(g: &GenCtx, seed: u64) -> Scenario {
         }
         if fr.pct(12) {
             sc.fs_fault = fr.next_u64() | 1;
+        }
+        if fr.pct(10) {
+            for t in sc.threads.iter_mut() {
+                if fr.pct(60) {
+                    t.cpus = 1 + fr.below(3) as u8;
+                }
+            }
         }
     }
     // medium-haul: one op of a uniformly chosen kind repeated 30..3000 times (process- or
